@@ -1,11 +1,11 @@
 package props
 
 import (
-	"strconv"
 	"fmt"
 	"go/token"
 	"go/types"
 	"sort"
+	"strconv"
 	"strings"
 
 	"golang.org/x/tools/go/ssa"
@@ -46,7 +46,7 @@ func C12(env *Env) {
 		// fetch gating: Get call sites reachable in this partition
 		type site struct {
 			pos, url, getter string
-			urlT, getterT     *flow.Term
+			urlT, getterT    *flow.Term
 		}
 		var sites []site
 		seenSite := map[string]bool{}
